@@ -14,6 +14,8 @@ def mergeOp (j : Json) : Json :=
   let (calls, _) := (jarrK j "calls").foldl (fun (acc : List Call × Nat) c =>
     match c with
     | .str "fill-empty" => (acc.1 ++ [Call.fill empty], acc.2)
+    | .str "fill-map-blank" => (acc.1 ++ [Call.fill (single key true "")], acc.2)
+    | .str "fill-struct-blank" => (acc.1 ++ [Call.fill (single key true "")], acc.2)
     | .str "assign" => (acc.1 ++ [Call.assign key (.str "assign".toList)], acc.2)
     | .str "new" => (acc.1 ++ [Call.new_], acc.2)
     | .str "load" => (acc.1 ++ [Call.load "other.vuego".toList], acc.2)
